@@ -9,8 +9,8 @@ from . import common
 
 ID = "C09"
 LEVEL = "exploration"
-BUDGET = {"quick": 1600, "thorough": 40000}
-WALL_CAP = {"quick": 420, "thorough": 3300}
+BUDGET = {"quick": 32000, "thorough": 640000}
+WALL_CAP = {"quick": 600, "thorough": 5400}
 RULE = ("case = generated 3D plotfile (1-4 properly nested, partially refined levels on blocking factor 2 or 4, mixed "
         "box extents such as 4 and 6 cells = the small-scale image of 16/24, anisotropic cells, non-zero origin, boxes "
         "scattered over files, finite payloads, optional volFrac field in [0,1]) x field x level limit in {None, "
